@@ -467,8 +467,7 @@ impl ParsedPacket {
         match_suffix: bool,
     ) -> Result<(), Error> {
         let packet = Renamer::rename_with_raw_names(self, target_name, source_name, match_suffix)?;
-        self.packet = Some(packet);
-        let dns_sector = DNSSector::new(self.packet.take().unwrap())?;
+        let dns_sector = DNSSector::new(packet)?;
         let parsed_packet = dns_sector.parse()?; // XXX - This can be recomputed on the fly by Renamer::rename_with_raw_names()
         self.offset_question = parsed_packet.offset_question;
         self.offset_answers = parsed_packet.offset_answers;
@@ -480,6 +479,8 @@ impl ParsedPacket {
         assert_eq!(self.edns_version, parsed_packet.edns_version);
         assert_eq!(self.ext_flags, parsed_packet.ext_flags);
         self.maybe_compressed = true;
+        self.packet = Some(parsed_packet.into_packet());
+        self.cached = None;
         Ok(())
     }
 }
